@@ -119,7 +119,59 @@ impl ArInto {
     }
 }
 
+/// Constructor return order: the read ends of the outputs come back in DECLARATION order, also when a
+/// no-copy (packet) output is declared before a sample stream output. (The annotated tuple type below
+/// makes a different order a compile error of the harness.)
+#[derive(rustradio::rustradio_macros::Block)]
+#[rustradio(new)]
+pub struct ArMixed {
+    #[rustradio(in)]
+    a: ReadStream<u32>,
+    #[rustradio(out)]
+    p: rustradio::stream::NCWriteStream<Vec<u32>>,
+    #[rustradio(out)]
+    x: WriteStream<u32>,
+}
+impl Block for ArMixed {
+    fn work(&mut self) -> rustradio::Result<rustradio::block::BlockRet> {
+        let (i, _) = self.a.read_buf()?;
+        if i.is_empty() {
+            return Ok(rustradio::block::BlockRet::WaitForStream(&self.a, 1));
+        }
+        let v = i.slice()[0];
+        let mut o = self.x.write_buf()?;
+        if o.is_empty() {
+            return Ok(rustradio::block::BlockRet::WaitForStream(&self.x, 1));
+        }
+        o.slice()[0] = v + 1;
+        o.produce(1, &[]);
+        self.p.push(vec![v], &[]);
+        i.consume(1);
+        Ok(rustradio::block::BlockRet::Again)
+    }
+}
+
 pub fn ctor_probes() -> Vec<String> {
+    let mixed = quiet(|| -> Result<(), String> {
+        let (mut f, r) = feeder::<u32>(0);
+        let (mut b, p, x): (ArMixed, rustradio::stream::NCReadStream<Vec<u32>>, ReadStream<u32>) = ArMixed::new(r);
+        f.push(&[41], &[]);
+        b.work().map_err(|e| e.to_string())?;
+        let pkt = p.pop().map(|(v, _)| v);
+        let (rb, _) = x.read_buf().map_err(|e| e.to_string())?;
+        if pkt != Some(vec![41]) || rb.slice() != [42] {
+            return Err(format!("packet output delivered {pkt:?}, stream output {:?}", rb.slice()));
+        }
+        Ok(())
+    });
+    let mixed_line = format!(
+        "!ctor outputs-in-declaration-order (packet output declared first)\t{}",
+        match mixed {
+            Ok(Ok(())) => "pass".to_string(),
+            Ok(Err(e)) => format!("FAIL {e}"),
+            Err(p) => format!("FAIL panic: {p}"),
+        }
+    );
     let r = quiet(|| -> Result<(), String> {
         let (mut f, r) = feeder::<u32>(0);
         // gain 10, offset 1, shift 0: f(3) = 31. Any permutation of the three gives another value.
@@ -133,14 +185,17 @@ pub fn ctor_probes() -> Vec<String> {
         }
         Ok(())
     });
-    vec![format!(
-        "!ctor into-field-before-plain-field\t{}",
-        match r {
-            Ok(Ok(())) => "pass".to_string(),
-            Ok(Err(e)) => format!("FAIL {e}"),
-            Err(p) => format!("FAIL panic: {p}"),
-        }
-    )]
+    vec![
+        mixed_line,
+        format!(
+            "!ctor into-field-before-plain-field\t{}",
+            match r {
+                Ok(Ok(())) => "pass".to_string(),
+                Ok(Err(e)) => format!("FAIL {e}"),
+                Err(p) => format!("FAIL panic: {p}"),
+            }
+        ),
+    ]
 }
 
 // ---------------------------------------------------------------- catalogue
@@ -594,7 +649,10 @@ pub fn build_hand(name: &str, rng: &mut Rng) -> Built {
 }
 
 fn gen_inspecs(built: &Built, rng: &mut Rng, heavy_tags: bool) -> Vec<InSpec> {
-    let in_cap = built.rig.ins.iter().map(|i| i.cap()).filter(|c| *c != PKT_CAP).max().unwrap_or(1024);
+    // a packet input has no capacity of its own: size the data by the block's output stream, so that
+    // the output does fill up
+    let out_cap = built.rig.outs.iter().map(|o| o.cap()).filter(|c| *c != PKT_CAP).min().unwrap_or(1024);
+    let in_cap = built.rig.ins.iter().map(|i| i.cap()).filter(|c| *c != PKT_CAP).max().unwrap_or(out_cap);
     built
         .alphabets
         .iter()
@@ -628,9 +686,40 @@ fn gen_inspecs(built: &Built, rng: &mut Rng, heavy_tags: bool) -> Vec<InSpec> {
             } else {
                 vec![]
             };
-            InSpec { pkts, len, seed: rng.next() >> 8, m: *m, tbl: tbl.clone(), tags }
+            if built.name == "il2p" {
+                // valid IL2P transmissions (the library's own test vector) between stretches of random bits,
+                // with the "sync" tags CorrelateAccessCodeTag would put on the last bit of each sync word
+                if let Some((data, tags)) = il2p_input(rng) {
+                    return InSpec { pkts, len: data.len(), seed: 0, m: *m, tbl: tbl.clone(), tags, fixed: Some(data) };
+                }
+            }
+            InSpec { pkts, len, seed: rng.next() >> 8, m: *m, tbl: tbl.clone(), tags, fixed: None }
         })
         .collect()
+}
+
+fn il2p_input(rng: &mut Rng) -> Option<(Vec<u64>, Vec<(usize, u64, u64)>)> {
+    let frame: Vec<u64> = std::fs::read("/repo/testdata/il2p.bits").ok()?.iter().map(|b| (*b & 1) as u64).collect();
+    let sync: Vec<u64> = rustradio::il2p_deframer::SYNC_WORD.iter().map(|b| *b as u64).collect();
+    let at = frame.windows(sync.len()).position(|w| w == &sync[..])? + sync.len() - 1;
+    let mut data = vec![];
+    let mut tags = vec![];
+    for _ in 0..rng.range(1, 4) {
+        for _ in 0..rng.range(0, 400) {
+            data.push(rng.below(2) as u64);
+        }
+        if rng.chance(1, 5) && !data.is_empty() {
+            // a false sync in the noise
+            tags.push((data.len() - 1, 200, 0));
+        }
+        tags.push((data.len() + at, 200, 0));
+        data.extend(&frame);
+    }
+    for _ in 0..rng.range(0, 200) {
+        data.push(rng.below(2) as u64);
+    }
+    tags.sort_by_key(|t| t.0);
+    Some((data, tags))
 }
 
 /// Model-free checks on the real block: (1) chunking independence — an adversarial
@@ -696,6 +785,19 @@ pub fn selfcheck(name: &str, rng: &mut Rng, steps: usize, heavy_tags: bool) -> V
         Err(e) => format!("FAIL {e}"),
     };
     out.push(format!("!c09 {id}\t{c9}\t{}", if c9 == "pass" { String::new() } else { format!("{name}-verdict") }));
+    // C10 for the converters without a Lean model: the documented function on the real block
+    if name == "v2s" && !a.panicked && !b.panicked {
+        // vector-to-stream: the concatenation of the packets, nothing lost, nothing added
+        let want = ins[0].fixed.clone().unwrap_or_else(|| gen_data(ins[0].len, ins[0].seed, ins[0].m, &ins[0].tbl));
+        let sv = if a.collected[0] != want {
+            format!("FAIL drip-fed run: {} samples out of {} queued in packets", a.collected[0].len(), want.len())
+        } else if b.collected[0] != want {
+            format!("FAIL greedy run: {} samples out of {} queued in packets", b.collected[0].len(), want.len())
+        } else {
+            "pass".to_string()
+        };
+        out.push(format!("!spec {id}\t{sv}\t{}", if sv == "pass" { String::new() } else { format!("{name}-spec") }));
+    }
     out
 }
 
@@ -755,6 +857,46 @@ pub fn fit_probes() -> Vec<String> {
         });
         out.push(format!(
             "!c09 v2s exact-fit packet={n}\t{}",
+            match r {
+                Ok(Ok(())) => "pass".to_string(),
+                Ok(Err(e)) => format!("FAIL {e}"),
+                Err(p) => format!("FAIL panic: {p}"),
+            }
+        ));
+    }
+    // back-pressure: more packet data than the output stream holds, drained only when the block asks
+    // for output space; every sample must come out, in order
+    for (npk, plen) in [(30usize, 300usize), (9, 1000), (3, 4096), (200, 41)] {
+        let r = quiet(|| -> Result<(), String> {
+            rustradio::verif::set_stream_size(4096);
+            let (mut fi, r) = pkt_feeder::<u8>();
+            let (mut b, o) = VecToStream::new(r);
+            let mut want: Vec<u8> = vec![];
+            for p in 0..npk {
+                let pkt: Vec<u64> = (0..plen).map(|i| ((p * 31 + i * 7) % 251) as u64).collect();
+                want.extend(pkt.iter().map(|v| *v as u8));
+                fi.push(&pkt, &[]);
+            }
+            let mut got: Vec<u8> = vec![];
+            for _ in 0..(npk * 4 + 50) {
+                let ret = b.work().map_err(|e| e.to_string())?;
+                if !matches!(ret, rustradio::block::BlockRet::Again) {
+                    let (rb, _) = o.read_buf().map_err(|e| e.to_string())?;
+                    let n = rb.len();
+                    got.extend_from_slice(rb.slice());
+                    rb.consume(n);
+                }
+            }
+            let (rb, _) = o.read_buf().map_err(|e| e.to_string())?;
+            got.extend_from_slice(rb.slice());
+            if got != want {
+                let first = got.iter().zip(&want).position(|(a, b)| a != b);
+                return Err(format!("{} of {} samples delivered, first difference at {first:?}", got.len(), want.len()));
+            }
+            Ok(())
+        });
+        out.push(format!(
+            "!c10 v2s back-pressure packets={npk}x{plen}\t{}",
             match r {
                 Ok(Ok(())) => "pass".to_string(),
                 Ok(Err(e)) => format!("FAIL {e}"),
@@ -831,7 +973,7 @@ pub fn case(name: &str, rng: &mut Rng, steps: usize, heavy_tags: bool) -> String
                 _ => rng.range(0, 700),
             };
             let tags = if built.name == "s2pdu" { gen_burst_tags(rng, len) } else { gen_tags(rng, len, heavy_tags) };
-            InSpec { pkts: vec![], len, seed: rng.next() >> 8, m: *m, tbl: tbl.clone(), tags }
+            InSpec { pkts: vec![], len, seed: rng.next() >> 8, m: *m, tbl: tbl.clone(), tags, fixed: None }
         })
         .collect();
     let lens: Vec<usize> = ins.iter().map(|i| i.len).collect();
